@@ -67,3 +67,15 @@ OpenDir.vos OpenDir.vok OpenDir.required_vos: OpenDir.v
 OpenDirFacts.vo OpenDirFacts.glob OpenDirFacts.v.beautified OpenDirFacts.required_vo: OpenDirFacts.v OpenDir.vo
 OpenDirFacts.vio: OpenDirFacts.v OpenDir.vio
 OpenDirFacts.vos OpenDirFacts.vok OpenDirFacts.required_vos: OpenDirFacts.v OpenDir.vos
+Codec.vo Codec.glob Codec.v.beautified Codec.required_vo: Codec.v Bytes.vo Segment.vo
+Codec.vio: Codec.v Bytes.vio Segment.vio
+Codec.vos Codec.vok Codec.required_vos: Codec.v Bytes.vos Segment.vos
+CodecFacts.vo CodecFacts.glob CodecFacts.v.beautified CodecFacts.required_vo: CodecFacts.v Bytes.vo BytesFacts.vo Segment.vo Codec.vo
+CodecFacts.vio: CodecFacts.v Bytes.vio BytesFacts.vio Segment.vio Codec.vio
+CodecFacts.vos CodecFacts.vok CodecFacts.required_vos: CodecFacts.v Bytes.vos BytesFacts.vos Segment.vos Codec.vos
+FileFormat.vo FileFormat.glob FileFormat.v.beautified FileFormat.required_vo: FileFormat.v Codec.vo
+FileFormat.vio: FileFormat.v Codec.vio
+FileFormat.vos FileFormat.vok FileFormat.required_vos: FileFormat.v Codec.vos
+FileFormatFacts.vo FileFormatFacts.glob FileFormatFacts.v.beautified FileFormatFacts.required_vo: FileFormatFacts.v Bytes.vo BytesFacts.vo Segment.vo Codec.vo CodecFacts.vo FileFormat.vo
+FileFormatFacts.vio: FileFormatFacts.v Bytes.vio BytesFacts.vio Segment.vio Codec.vio CodecFacts.vio FileFormat.vio
+FileFormatFacts.vos FileFormatFacts.vok FileFormatFacts.required_vos: FileFormatFacts.v Bytes.vos BytesFacts.vos Segment.vos Codec.vos CodecFacts.vos FileFormat.vos
